@@ -56,6 +56,7 @@ inductive Query where
   | project (es : List Expr) (q : Query)
   | join (k : JoinKind) (on : Expr) (l r : Query)
   | agg (groups : List Expr) (aggs : List AggSpec) (q : Query)
+  | aggSets (groups : List Expr) (sets : List (List Nat)) (aggs : List AggSpec) (q : Query)   -- GROUPING SETS / ROLLUP / CUBE
   | distinct (q : Query)
   | union (all : Bool) (l r : Query)
   | sort (keys : List (Expr × Bool × Bool)) (q : Query)      -- (expr, desc, nullsFirst)
@@ -358,6 +359,24 @@ def evalGroups (db : Db) : Nat → List Row → List AggSpec → List (Row × Li
       let tl ← evalGroups db f env specs rest
       pure ((k ++ a) :: tl)
 
+/-- One result block per grouping set: keys outside the set are NULL in the output and do not
+take part in the grouping. -/
+def evalSets (db : Db) : Nat → List Row → List AggSpec → List (List Nat) → List Row → List Row → Except Err (List Row)
+  | 0, _, _, _, _, _ => .error .fuel
+  | f + 1, env, specs, sets, keyedAll, rs =>
+    match sets with
+    | [] => .ok []
+    | s :: rest => do
+      let mask (k : Row) : Row := (k.zipIdx).map fun (v, i) => if s.contains i then v else .null
+      let keyed := keyedAll.map mask
+      let ks := dedup keyed
+      let grouped := ks.map fun k => (k, (keyed.zip rs).filterMap fun (k', r) => if rowEq k k' then some r else none)
+      -- dialect fact (DESIGN appendix F): over empty input the engine emits no row for any grouping
+      -- set, including the empty one (PostgreSQL would emit the grand-total row)
+      let block ← evalGroups db f env specs grouped
+      let tl ← evalSets db f env specs rest keyedAll rs
+      pure (block ++ tl)
+
 def evalQ (db : Db) : Nat → List Row → Query → Except Err (List Row)
   | 0, _, _ => .error .fuel
   | f + 1, env, q =>
@@ -412,6 +431,10 @@ def evalQ (db : Db) : Nat → List Row → Query → Except Err (List Row)
       else
         let grouped := ks.map fun k => (k, (keyed.zip rs).filterMap fun (k', r) => if rowEq k k' then some r else none)
         evalGroups db f env aggs grouped
+    | .aggSets groups sets aggs q => do
+      let rs ← evalQ db f env q
+      let keyedAll ← mapRows db f env groups rs
+      evalSets db f env aggs sets keyedAll rs
     | .distinct q => do pure (dedup (← evalQ db f env q))
     | .union all l r => do
       let a ← evalQ db f env l
@@ -441,6 +464,7 @@ def widthOf (db : Db) : Nat → List Row → Query → Nat → Nat
       | .semi | .anti => widthOf db f env l d
       | _ => widthOf db f env l 0 + widthOf db f env r 0
     | .agg g a _ => g.length + a.length
+    | .aggSets g _ a _ => g.length + a.length
     | .distinct q => widthOf db f env q d
     | .union _ l _ => widthOf db f env l d
     | .sort _ q => widthOf db f env q d
